@@ -33,13 +33,18 @@ def parseBase (s : String) : Option MemBase :=
 def parseIndex (s : String) : Option (Option (Nat × Nat)) :=
   if s == "-" then some none else (parseTypedReg s).bind fun (t, i) => if t < 1 then none else some (some (t, i))
 
+/-- `Reg::from_type_and_id` of a RegType without `RegTraits` has signature 0, i.e. it *is* the none operand -/
+def noTraits (t : Nat) : Bool := t = 0 ∨ t = 1 ∨ t = 14 ∨ (18 ≤ t ∧ t ≤ 24)
+
 def parseOperand (s : String) : Option Operand :=
   if s == "-" then some .none else
   match splitOnChar '.' s with
-  | ["r", t, i] => do let t ← t.toNat?; let i ← parseId i; if t > 31 then none else some (.reg t i 0 none)
+  | ["r", t, i] => do
+    let t ← t.toNat?; let i ← parseId i
+    if t > 31 then none else if noTraits t then some .none else some (.reg t i 0 none)
   | ["r", t, i, et, ei] => do
     let t ← t.toNat?; let i ← parseId i; let et ← et.toNat?
-    if t > 31 ∨ et > 7 then none else
+    if t > 31 ∨ et > 7 then none else if noTraits t then some .none else
     if ei == "-" then some (.reg t i et none) else do let ei ← ei.toNat?; if ei > 15 then none else some (.reg t i et (some ei))
   | ["i", v] => do let v ← v.toInt?; some (.imm (toU64 v) 0)
   | ["i", v, p] => do let v ← v.toInt?; let p ← p.toNat?; if p > 15 then none else some (.imm (toU64 v) p)
